@@ -1,7 +1,7 @@
 \* as built: all graphs over 2 objects x roots x resources of 3 categories (emission)
 CONSTANTS
   N = 2
-  Categories = {"gs", "font", "colorspace"}
+  Categories = {"font", "xobject", "colorspace"}
   Dev <- AsBuilt
 INIT Init
 NEXT Next
